@@ -1,6 +1,10 @@
 package props
 
 import (
+	"strings"
+	"crypto/sha256"
+	"os/exec"
+	"os"
 	"encoding/json"
 	"fmt"
 	"math/rand"
@@ -326,5 +330,129 @@ func c07Case(c *core.C) {
 	}
 	if !proto.Equal(snap, docs[0]) {
 		c.Violatef("serializer-mutates-document", nil, "a serializer changed the document it was given")
+		return
+	}
+	if c.K%8 == 5 && docs[0].GetNodeList() != nil && len(docs[0].NodeList.Nodes) > 0 {
+		c07History(c, docs[0], descs[0])
+	}
+}
+
+// c07History: "independently of whatever was serialized before", decided against a process without a before. A
+// sibling of the document - same identifiers, names and supplier names, other nested details (contacts, comments,
+// digests, descriptions) - is serialized first, then the document itself; a fresh child process serializes the
+// document alone. The two must agree in every format.
+func c07History(c *core.C, d *sbom.Document, desc string) {
+	r := c.R
+	sib := gen.Clone(d)
+	tweak := func(p *sbom.Person) {
+		for _, ct := range p.Contacts {
+			ct.Email, ct.Phone, ct.Name = "sibling@example.org", "+00 000", ct.Name+"-sibling"
+		}
+		p.Contacts = append(p.Contacts, &sbom.Person{Name: "sibling-contact", Email: "s@example.org"})
+		p.Email, p.Url, p.Phone = "sibling@example.org", "https://sibling.example", "+00 111"
+	}
+	for _, n := range sib.NodeList.Nodes {
+		for _, p := range n.Suppliers {
+			tweak(p)
+		}
+		for _, p := range n.Originators {
+			tweak(p)
+		}
+		for _, e := range n.ExternalReferences {
+			e.Comment += " (sibling)"
+			for k := range e.Hashes {
+				e.Hashes[k] = "5151" + e.Hashes[k]
+			}
+		}
+		for k := range n.Hashes {
+			n.Hashes[k] = "5151" + n.Hashes[k]
+		}
+		n.Description, n.Comment, n.Copyright = n.Description+" sibling", n.Comment+" sibling", n.Copyright+" sibling"
+		n.Licenses = append(n.Licenses, "LicenseRef-sibling")
+	}
+	if sib.Metadata != nil {
+		for _, p := range sib.Metadata.Authors {
+			tweak(p)
+		}
+		for _, t := range sib.Metadata.Tools {
+			t.Version += "-sibling"
+		}
+	}
+	b, err := proto.Marshal(d)
+	if err != nil {
+		return
+	}
+	f, err := os.CreateTemp(os.Getenv("VCHECK_SCRATCH"), "c07-doc-")
+	if err != nil {
+		return
+	}
+	defer os.Remove(f.Name())
+	_, _ = f.Write(b)
+	f.Close()
+	exe, _ := os.Executable()
+	out, runErr := exec.Command(exe, "c07one", f.Name()).Output()
+	if _, exited := runErr.(*exec.ExitError); runErr != nil && !exited {
+		c.Violatef("harness-child", nil, "c07one child not started: %v", runErr)
+		return
+	}
+	fresh := map[string]string{}
+	for _, ln := range strings.Split(string(out), "\n") {
+		fs := strings.SplitN(ln, "\t", 3)
+		if len(fs) == 3 && fs[0] == "FMT" {
+			fresh[fs[1]] = fs[2]
+		}
+	}
+	if len(fresh) != len(c07Formats) {
+		c.Cover("fresh-process-serialization-died(not judged here; totality is judged in process)")
+		return
+	}
+	_ = r
+	for _, fm := range c07Formats {
+		det := map[string]any{"format": string(fm), "variant": desc, "document": d.String()}
+		if guard(c, "write["+string(fm)+"]", det, func() { _, _ = writeDoc(sib, fm, 2) }) {
+			return
+		}
+		var o []byte
+		var werr error
+		if guard(c, "write["+string(fm)+"]", det, func() { o, werr = writeDoc(d, fm, 2) }) {
+			return
+		}
+		c.Evals(1)
+		c.Cover("compared-with-a-fresh-process")
+		if got := c07Digest(o, werr); got != fresh[string(fm)] {
+			c.Violatef("depends-on-history:"+string(fm), det, "the %s output of a document serialized after a sibling (same identifiers and names, other details) differs from its output in a fresh process: %s vs %s", fm, got, fresh[string(fm)])
+			return
+		}
+	}
+}
+
+func c07Digest(out []byte, err error) string {
+	if err != nil {
+		return "error"
+	}
+	n, nerr := c07Normalise(out)
+	if nerr != nil {
+		return "not-json"
+	}
+	h := sha256.Sum256([]byte(n))
+	return fmt.Sprintf("ok:%x", h[:12])
+}
+
+func init() {
+	extraCmds["c07one"] = func(args []string) int {
+		if len(args) < 1 {
+			return 2
+		}
+		b, err := os.ReadFile(args[0])
+		d := &sbom.Document{}
+		if err != nil || proto.Unmarshal(b, d) != nil {
+			fmt.Println("HARNESS cannot read document")
+			return 3
+		}
+		for _, fm := range c07Formats {
+			o, werr := writeDoc(d, fm, 2)
+			fmt.Printf("FMT\t%s\t%s\n", fm, c07Digest(o, werr))
+		}
+		return 0
 	}
 }
